@@ -411,6 +411,23 @@ V_P_R = ("read_pi", "codes::pi::PiRead::read_pi")
 V_P_L = ("len_pi", "codes::pi::len_pi")
 V_P_LEMMAS = [(l, "") for l in ("lemma_pi_lambda", "lemma_pi_small", "lemma_pi_split", "lemma_pi_pre", "lemma_pi_q", "lemma_pi_value", "lemma_pi_top", "lemma_pi_r",
                                  "write_rice", "read_rice", "len_rice")]
+def _verus_eg(prop: str, which) -> List[Obl]:
+    out = []
+    for fn, src in which:
+        out.append(Obl(id=f"{prop.lower()}.verus.exp_golomb.{fn}", prop=prop, engine="verus", target=f"exp_golomb:{fn}", fns=[src] if src else [],
+                       note="every k in 0..=63, every value below 2^64-1, Seq<bool> stream contract; default configuration; gamma entry points by contract "
+                            "(default implementation proved here, table variants by Kani)"))
+    return out
+
+
+V_G2_W = ("default_write_gamma", "codes::gamma::default_write_gamma")
+V_G2_R = ("default_read_gamma", "codes::gamma::default_read_gamma")
+V_G2_L = ("len_gamma_param", "codes::gamma::len_gamma_param::<false>")
+V_E_W = ("write_exp_golomb", "codes::exp_golomb::ExpGolombWrite::write_exp_golomb")
+V_E_R = ("read_exp_golomb", "codes::exp_golomb::ExpGolombRead::read_exp_golomb")
+V_E_L = ("len_exp_golomb", "codes::exp_golomb::len_exp_golomb")
+V_E_LEMMAS = [(l, "") for l in ("lemma_gamma_lambda", "lemma_gamma_split", "lemma_gamma_q", "lemma_gamma_r", "lemma_eg_quot", "lemma_eg_split", "lemma_eg_pre",
+                                 "lemma_eg_q", "lemma_eg_r", "lemma_pi_value", "lemma_pi_top")]
 V_Z_W = ("default_write_zeta", "codes::zeta::default_write_zeta (write_zeta, write_zeta_param)")
 V_Z_R = ("default_read_zeta", "codes::zeta::default_read_zeta (read_zeta, read_zeta_param)")
 V_Z_L = ("len_zeta_param", "codes::zeta::len_zeta_param::<false> (len_zeta without the length table)")
@@ -433,11 +450,11 @@ V_LEMMAS = [(l, "") for l in ("lemma_limit", "lemma_bits_determine", "lemma_fiel
 
 
 def _c03() -> List[Obl]:
-    return (_verus_golomb("C03", [V_MB_W, V_MB_R, V_G_W, V_G_R] + V_LEMMAS) + _stdspec("C03", ["ilog2"]) + _verus_rice("C03", [V_R_W, V_R_R] + V_R_LEMMAS) + _verus_zeta("C03", [V_Z_W, V_Z_R] + V_Z_LEMMAS) + _verus_pi("C03", [V_P_W, V_P_R] + V_P_LEMMAS) +_codes("C03", r"c03|contract", [(RT_BASE, None), (RT_K, RT_K_QUICK)]) + _golomb("C03", r"c03|contract", ["rt", "mb_rt"]))
+    return (_verus_golomb("C03", [V_MB_W, V_MB_R, V_G_W, V_G_R] + V_LEMMAS) + _stdspec("C03", ["ilog2"]) + _verus_rice("C03", [V_R_W, V_R_R] + V_R_LEMMAS) + _verus_zeta("C03", [V_Z_W, V_Z_R] + V_Z_LEMMAS) + _verus_pi("C03", [V_P_W, V_P_R] + V_P_LEMMAS) + _verus_eg("C03", [V_G2_W, V_G2_R, V_E_W, V_E_R] + V_E_LEMMAS) +_codes("C03", r"c03|contract", [(RT_BASE, None), (RT_K, RT_K_QUICK)]) + _golomb("C03", r"c03|contract", ["rt", "mb_rt"]))
 
 
 def _c04() -> List[Obl]:
-    return (_verus_golomb("C04", [V_MB_W, V_G_W, ("lemma_limit", "")]) + _stdspec("C04", ["ilog2"]) + _verus_rice("C04", [V_R_W]) + _verus_zeta("C04", [V_Z_W, ("lemma_zeta_params", "")]) + _verus_pi("C04", [V_P_W, ("lemma_pi_lambda", "")]) +_codes("C04", r"c04|contract", [(DEF_H, None)]) + _golomb("C04", r"c04|contract", ["def", "mb_def"]))
+    return (_verus_golomb("C04", [V_MB_W, V_G_W, ("lemma_limit", "")]) + _stdspec("C04", ["ilog2"]) + _verus_rice("C04", [V_R_W]) + _verus_zeta("C04", [V_Z_W, ("lemma_zeta_params", "")]) + _verus_pi("C04", [V_P_W, ("lemma_pi_lambda", "")]) + _verus_eg("C04", [V_G2_W, V_E_W, ("lemma_eg_quot", "")]) +_codes("C04", r"c04|contract", [(DEF_H, None)]) + _golomb("C04", r"c04|contract", ["def", "mb_def"]))
 
 
 def _c05() -> List[Obl]:
@@ -451,7 +468,7 @@ def _c05() -> List[Obl]:
 
 
 def _c06() -> List[Obl]:
-    return (_verus_golomb("C06", [V_MB_L, V_G_L, V_MB_W, V_G_W, V_MB_R, V_G_R, ("lemma_limit", ""), ("lemma_golomb_no_overflow", "")]) + _stdspec("C06", ["ilog2"]) + _verus_rice("C06", [V_R_L, V_R_W, V_R_R, ("lemma_rice_no_overflow", "")]) + _verus_zeta("C06", [V_Z_L, V_Z_W, V_Z_R, ("lemma_zeta_params", "")]) + _verus_pi("C06", [V_P_L, V_P_W, V_P_R, ("lemma_pi_small", "")]) +_codes("C06", r"c06", [(LEN_H, None), (DEF_H, None)]) + _golomb("C06", r"c06", ["len", "def"])
+    return (_verus_golomb("C06", [V_MB_L, V_G_L, V_MB_W, V_G_W, V_MB_R, V_G_R, ("lemma_limit", ""), ("lemma_golomb_no_overflow", "")]) + _stdspec("C06", ["ilog2"]) + _verus_rice("C06", [V_R_L, V_R_W, V_R_R, ("lemma_rice_no_overflow", "")]) + _verus_zeta("C06", [V_Z_L, V_Z_W, V_Z_R, ("lemma_zeta_params", "")]) + _verus_pi("C06", [V_P_L, V_P_W, V_P_R, ("lemma_pi_small", "")]) + _verus_eg("C06", [V_G2_L, V_G2_W, V_G2_R, V_E_L, V_E_W, V_E_R, ("lemma_eg_quot", "")]) +_codes("C06", r"c06", [(LEN_H, None), (DEF_H, None)]) + _golomb("C06", r"c06", ["len", "def"])
             + _codes("C06", r"bits consumed", [(["rt_gamma", "rt_delta", "rt_omega", "rt_zeta3", "rt_vbyte_be", "rt_zeta_k2", "rt_pi_k2", "rt_exp_golomb_k1"], None)]))
 
 
